@@ -394,8 +394,9 @@ inductive Cmd
   | subclassMI (mroTail : List ClassId)
   /-- `parent.using(properties={…})`: subclass with a fresh `Properties(dict)` descriptor -/
   | usingProps (parent : ClassId) (init : List (Key × Val))
-  /-- `parent.using(properties=P)` with `P` the descriptor object already owned by class `owner` -/
-  | usingShared (parent : ClassId) (owner : ClassId)
+  /-- `parent.using(properties=P)` with `P` the `Properties` object already held by class `owner`;
+      `init` is `P.initial_set`, the mapping `P` was constructed with -/
+  | usingShared (parent : ClassId) (owner : ClassId) (init : List (Key × Val))
   /-- `parent.with_properties(*pairs, **kw)` -/
   | withProps (parent : ClassId) (pairs : List (Key × Val))
   /-- `cls()` -/
@@ -430,10 +431,17 @@ def step (σ : State) : Cmd → State × Res
     if tail.all (· < σ.classes.length) then (addClass σ tail none, .unit) else (σ, .err .badCase)
   | .usingProps p init =>
     if p < σ.classes.length then (usingPropsStep σ p init, .unit) else (σ, .err .badCase)
-  | .usingShared p owner =>
+  | .usingShared p owner init =>
+    -- since /repo 936c1b4 every class that is handed the Properties object `P` gets
+    -- `dict(P.initial_set)` as its own frame: sharing the object shares nothing, the new class
+    -- behaves as if it had a Properties object of its own with the same initial mapping `init`
+    -- (`P.initial_set` as given when `P` was constructed; nothing writes to it any more).
+    -- Modelling boundary: the code still compares descriptor IDENTITY in the MRO walk, which only a
+    -- multiple-inheritance class mixing such classes can observe; those histories are checked by
+    -- the Python reference only (harness `has_model`).
     if p < σ.classes.length then
       match σ.ownOf owner with
-      | some d => (addClass σ (σ.mroOf p) (some d), .unit)
+      | some _ => (usingPropsStep σ p init, .unit)
       | none => (σ, .err .badCase)
     else (σ, .err .badCase)
   | .withProps p pairs =>
